@@ -353,9 +353,9 @@ Proof. intros i l H. destruct i; discriminate H. Qed.
 
 Definition line_le (a b : perr) : Prop := pe_line a <= pe_line b.
 
-(* the errors collected so far: all fine, all above line [ln], in ascending order *)
-Definition good (all : list line) (ln : nat) (errs : list perr) : Prop :=
-  Forall (err_ok all) errs /\ Forall (fun e => pe_line e < ln) errs /\ StronglySorted line_le errs.
+(* the errors collected so far: all fine, all on lines lo .. ln-1, in ascending order *)
+Definition good (all : list line) (lo ln : nat) (errs : list perr) : Prop :=
+  lo <= ln /\ Forall (err_ok all) errs /\ Forall (fun e => lo <= pe_line e < ln) errs /\ StronglySorted line_le errs.
 
 Lemma sorted_snoc {A} (R : A -> A -> Prop) l e : StronglySorted R l -> Forall (fun a => R a e) l ->
   StronglySorted R (l ++ [e]).
@@ -366,19 +366,19 @@ Proof.
     apply Forall_app. split; [exact Ha|constructor; [exact Hae|constructor]].
 Qed.
 
-Lemma good_nil all ln : good all ln [].
-Proof. repeat split; constructor. Qed.
+Lemma good_nil all lo ln : lo <= ln -> good all lo ln [].
+Proof. intros H. split; [exact H|]. repeat split; constructor. Qed.
 
-Lemma good_mono all ln ln2 errs : good all ln errs -> ln <= ln2 -> good all ln2 errs.
+Lemma good_mono all lo ln ln2 errs : good all lo ln errs -> ln <= ln2 -> good all lo ln2 errs.
 Proof.
-  intros (H1 & H2 & H3) Hle. repeat split; [exact H1| |exact H3].
+  intros (H0 & H1 & H2 & H3) Hle. split; [lia|]. split; [exact H1|]. split; [|exact H3].
   eapply Forall_impl; [|exact H2]. cbn. intros; lia.
 Qed.
 
-Lemma good_snoc all ln ln2 errs e : good all ln errs -> err_ok all e -> ln <= pe_line e < ln2 ->
-  good all ln2 (errs ++ [e]).
+Lemma good_snoc all lo ln ln2 errs e : good all lo ln errs -> err_ok all e -> ln <= pe_line e < ln2 ->
+  good all lo ln2 (errs ++ [e]).
 Proof.
-  intros (H1 & H2 & H3) He Hln. repeat split.
+  intros (H0 & H1 & H2 & H3) He Hln. split; [lia|]. split; [|split].
   - apply Forall_app. split; [exact H1|constructor; [exact He|constructor]].
   - apply Forall_app. split; [|constructor; [lia|constructor]].
     eapply Forall_impl; [|exact H2]. cbn. intros; lia.
@@ -415,10 +415,10 @@ Proof.
 Qed.
 
 (* ---- entries ---- *)
-Lemma parse_entries_ok all style : Forall (fun c => (c < 128)%N) style ->
+Lemma parse_entries_ok all lo style : Forall (fun c => (c < 128)%N) style ->
   forall fuel ln ls es errs es' errs',
   parse_entries fuel style ln ls es errs = (es', errs') ->
-  located all ln ls -> good all ln errs -> exists ln', good all ln' errs'.
+  located all ln ls -> good all lo ln errs -> exists ln', good all lo ln' errs'.
 Proof.
   intros Hst. induction fuel as [|k IH]; intros ln ls es errs es' errs' H Hloc Hg; cbn [parse_entries] in H.
   { injection H as <- <-. exists ln; exact Hg. }
@@ -426,7 +426,7 @@ Proof.
   destruct (located_cons _ _ _ _ Hloc) as [Hl Hrest].
   set (cs := utf8_decode (l_text l)) in *.
   destruct (negb (has_prefix style (l_text l)) || is_space_or_tab (peek cs (length style))) eqn:Eind.
-  { injection H as <- <-. exists (S ln). apply (good_snoc all ln); [exact Hg| |cbn [mk_err pe_line]; lia].
+  { injection H as <- <-. exists (S ln). apply (good_snoc all lo ln); [exact Hg| |cbn [mk_err pe_line]; lia].
     apply whole_line_err_ok; exact Hl. }
   apply orb_false_iff in Eind as [Epre _]. apply negb_false_iff in Epre.
   pose proof (has_prefix_decode_length _ _ Hst Epre) as Hp0. fold cs in Hp0.
@@ -435,40 +435,40 @@ Proof.
   - (* value error *)
     apply IH in H; [exact H|exact Hrest|].
     destruct (at_line_err_ok all ln l e Hl Hev) as [He Hle].
-    apply (good_snoc all ln); [exact Hg|exact He|lia].
+    apply (good_snoc all lo ln); [exact Hg|exact He|lia].
   - destruct (parse_entry_summary_more style (S ln) rest _) as [[[summary serr] rest'] ln'] eqn:Esm.
     apply (parse_entry_summary_more_ok all) in Esm as (Hloc' & Hln' & Hserr); [|exact Hrest].
     destruct serr as [e|].
     + destruct Hserr as [He Hle]. apply IH in H; [exact H|exact Hloc'|].
-      apply (good_snoc all ln); [exact Hg|exact He|lia].
-    + apply IH in H; [exact H|exact Hloc'|]. apply (good_mono all ln); [exact Hg|lia].
+      apply (good_snoc all lo ln); [exact Hg|exact He|lia].
+    + apply IH in H; [exact H|exact Hloc'|]. apply (good_mono all lo ln); [exact Hg|lia].
   - destruct (parse_entry_summary_more style (S ln) rest _) as [[[summary serr] rest'] ln'] eqn:Esm.
     apply (parse_entry_summary_more_ok all) in Esm as (Hloc' & Hln' & Hserr); [|exact Hrest].
     destruct serr as [e|].
     + destruct Hserr as [He Hle]. apply IH in H; [exact H|exact Hloc'|].
-      apply (good_snoc all ln); [exact Hg|exact He|lia].
-    + apply IH in H; [exact H|exact Hloc'|]. apply (good_mono all ln); [exact Hg|lia].
+      apply (good_snoc all lo ln); [exact Hg|exact He|lia].
+    + apply IH in H; [exact H|exact Hloc'|]. apply (good_mono all lo ln); [exact Hg|lia].
   - destruct (parse_entry_summary_more style (S ln) rest _) as [[[summary serr] rest'] ln'] eqn:Esm.
     apply (parse_entry_summary_more_ok all) in Esm as (Hloc' & Hln' & Hserr); [|exact Hrest].
     destruct serr as [e|].
     + destruct Hserr as [He Hle]. apply IH in H; [exact H|exact Hloc'|].
-      apply (good_snoc all ln); [exact Hg|exact He|lia].
+      apply (good_snoc all lo ln); [exact Hg|exact He|lia].
     + destruct (has_open_entry es).
       * apply IH in H; [exact H|exact Hloc'|].
-        apply (good_snoc all ln); [exact Hg| |cbn [mk_err pe_line]; lia].
+        apply (good_snoc all lo ln); [exact Hg| |cbn [mk_err pe_line]; lia].
         apply (at_line_err_ok all ln l); [exact Hl|]. fold cs.
         destruct Hev as [-> Hpos].
         destruct (is_space_or_tab (peek cs pos)) eqn:Esp.
         -- apply peek_space_lt in Esp. apply at_line_mk; lia.
         -- apply at_line_mk; lia.
-      * apply IH in H; [exact H|exact Hloc'|]. apply (good_mono all ln); [exact Hg|lia].
+      * apply IH in H; [exact H|exact Hloc'|]. apply (good_mono all lo ln); [exact Hg|lia].
 Qed.
 
 (* ---- record summary lines ---- *)
-Lemma parse_summary_lines_ok all : forall ls ln acc errs summary errs' style rest1 ln1,
+Lemma parse_summary_lines_ok all lo : forall ls ln acc errs summary errs' style rest1 ln1,
   parse_summary_lines ln ls acc errs = (summary, errs', style, rest1, ln1) ->
-  located all ln ls -> good all ln errs ->
-  located all ln1 rest1 /\ good all ln1 errs' /\ (forall st, style = Some st -> In st indentations).
+  located all ln ls -> good all lo ln errs ->
+  located all ln1 rest1 /\ good all lo ln1 errs' /\ (forall st, style = Some st -> In st indentations).
 Proof.
   induction ls as [|l rest IH]; intros ln acc errs summary errs' style rest1 ln1 H Hloc Hg;
     cbn [parse_summary_lines] in H.
@@ -479,61 +479,77 @@ Proof.
       intros st' [= <-]. exact (find_indentation_in _ _ Efi).
     + match type of H with (if ?c then _ else _) = _ => destruct c end.
       * apply IH in H; [exact H|exact Hrest|].
-        apply (good_snoc all ln); [exact Hg| |cbn [mk_err pe_line]; lia]. apply whole_line_err_ok; exact Hl.
-      * apply IH in H; [exact H|exact Hrest|]. apply (good_mono all ln); [exact Hg|lia].
+        apply (good_snoc all lo ln); [exact Hg| |cbn [mk_err pe_line]; lia]. apply whole_line_err_ok; exact Hl.
+      * apply IH in H; [exact H|exact Hrest|]. apply (good_mono all lo ln); [exact Hg|lia].
 Qed.
 
 (* ================= one block ================= *)
 
 Lemma headline_errs_good all ln l es : nth_error all ln = Some l ->
-  Forall (at_line ln (length (utf8_decode (l_text l)))) es -> good all (S ln) es.
+  Forall (at_line ln (length (utf8_decode (l_text l)))) es -> good all ln (S ln) es.
 Proof.
-  intros Hl H. induction H as [|e es He H IH]; [apply good_nil|].
-  destruct IH as (I1 & I2 & I3). destruct (at_line_err_ok all ln l e Hl He) as [Hok Hln].
-  repeat split; constructor; try assumption; [lia|].
+  intros Hl H. induction H as [|e es He H IH]; [apply good_nil; lia|].
+  destruct IH as (I0 & I1 & I2 & I3). destruct (at_line_err_ok all ln l e Hl He) as [Hok Hln].
+  split; [exact I0|]. repeat split; constructor; try assumption; [lia|].
   eapply Forall_impl; [|exact H]. intros a [Ha _]. unfold line_le. lia.
 Qed.
+
+(* the error names a SIGNIFICANT line of [all] and a span inside that line *)
+Definition err_ok_sig (all : list line) (e : perr) : Prop :=
+  exists l, nth_error all (pe_line e) = Some l /\ is_blank l = false /\
+            span_ok (length (utf8_decode (l_text l))) e.
+
+Lemma err_ok_sig_ok all e : err_ok_sig all e -> err_ok all e.
+Proof. intros (l & H1 & _ & H2). exists l. split; assumption. Qed.
 
 Definition record_result_ok (b : block) (r : record + list perr) : Prop :=
   match r with
   | inl _ => True
-  | inr errs => errs <> [] /\ Forall (err_ok (b_lines b)) errs /\ StronglySorted line_le errs
+  | inr errs => errs <> [] /\ Forall (err_ok_sig (b_lines b)) errs /\ StronglySorted line_le errs
   end.
 
 Lemma parse_record_ok b head sig tail : shape (b_lines b) head sig tail ->
   exists r, parse_record b = Ok r /\ record_result_ok b r.
 Proof.
   intros Hsh. unfold parse_record. rewrite (shape_significant_lines b head sig tail Hsh).
-  destruct Hsh as (Hb & Hne & _). destruct sig as [|hl rest]; [congruence|].
-  set (all := b_lines b) in *.
-  assert (Hloc : located all (length head) (hl :: rest)).
-  { intros i l Hi. rewrite Hb. rewrite nth_error_app2 by lia. replace (_ + i - _) with i by lia.
-    rewrite nth_error_app1; [exact Hi|]. apply nth_error_Some. congruence. }
+  destruct Hsh as (Hb & Hne & _ & Hsig & _). destruct sig as [|hl rest]; [congruence|].
+  (* the parser only ever looks at head ++ sig *)
+  set (all := head ++ hl :: rest).
+  set (lo := length head).
+  assert (Hloc : located all lo (hl :: rest)).
+  { intros i l Hi. unfold all, lo. rewrite nth_error_app2 by lia. replace (_ + i - _) with i by lia. exact Hi. }
   destruct (located_cons _ _ _ _ Hloc) as [Hhl Hrest].
-  pose proof (parse_headline_ok (length head) (utf8_decode (l_text hl))) as Hh.
+  pose proof (parse_headline_ok lo (utf8_decode (l_text hl))) as Hh.
   assert (Hg0 : exists d should errs0,
-     match parse_headline (length head) (utf8_decode (l_text hl)) with
+     match parse_headline lo (utf8_decode (l_text hl)) with
      | HeadNone e => (dummy_date, None, [e])
      | HeadRec d s es => (d, s, es)
-     end = (d, should, errs0) /\ good all (S (length head)) errs0).
+     end = (d, should, errs0) /\ good all lo (S lo) errs0).
   { destruct (parse_headline _ _) as [e|d s es]; cbn [headline_ok] in Hh.
     - exists dummy_date, None, [e]. split; [reflexivity|]. apply (headline_errs_good all _ hl); [exact Hhl|].
       constructor; [exact Hh|constructor].
     - exists d, s, es. split; [reflexivity|]. apply (headline_errs_good all _ hl); [exact Hhl|exact Hh]. }
   destruct Hg0 as (d & should & errs0 & -> & Hg0).
-  destruct (parse_summary_lines (S (length head)) rest [] errs0) as [[[[summary errs1] style] rest1] ln1] eqn:Esl.
-  apply (parse_summary_lines_ok all) in Esl as (Hloc1 & Hg1 & Hst); [|exact Hrest|exact Hg0].
+  destruct (parse_summary_lines (S lo) rest [] errs0) as [[[[summary errs1] style] rest1] ln1] eqn:Esl.
+  apply (parse_summary_lines_ok all lo) in Esl as (Hloc1 & Hg1 & Hst); [|exact Hrest|exact Hg0].
   assert (Hg2 : exists entries errs2 ln2,
      match style with
      | Some st => parse_entries (length rest1) st ln1 rest1 [] errs1
      | None => ([], errs1)
-     end = (entries, errs2) /\ good all ln2 errs2).
+     end = (entries, errs2) /\ good all lo ln2 errs2).
   { destruct style as [st|].
     - destruct (parse_entries (length rest1) st ln1 rest1 [] errs1) as [entries errs2] eqn:Epe.
-      apply (parse_entries_ok all st) in Epe as [ln2 Hg2]; [|apply indentations_ascii; apply Hst; reflexivity|exact Hloc1|exact Hg1].
+      apply (parse_entries_ok all lo st) in Epe as [ln2 Hg2]; [|apply indentations_ascii; apply Hst; reflexivity|exact Hloc1|exact Hg1].
       exists entries, errs2, ln2. split; [reflexivity|exact Hg2].
     - exists [], errs1, ln1. split; [reflexivity|exact Hg1]. }
-  destruct Hg2 as (entries & errs2 & ln2 & -> & (G1 & G2 & G3)).
+  destruct Hg2 as (entries & errs2 & ln2 & -> & (_ & G1 & G2 & G3)).
+  assert (G : Forall (err_ok_sig (b_lines b)) errs2).
+  { rewrite Forall_forall in *. intros e He. destruct (G1 e He) as (l & Hl & Hspan). specialize (G2 e He).
+    exists l. split; [|split; [|exact Hspan]].
+    - rewrite Hb. change (head ++ (hl :: rest) ++ tail) with (head ++ ((hl :: rest) ++ tail)).
+      rewrite app_assoc. fold all. rewrite nth_error_app1; [exact Hl|]. apply nth_error_Some. congruence.
+    - unfold all in Hl. rewrite nth_error_app2 in Hl by (unfold lo in G2; lia).
+      apply nth_error_In in Hl. exact (Hsig l Hl). }
   destruct errs2 as [|e errs2].
   - eexists. split; [reflexivity|exact I].
   - eexists. split; [reflexivity|]. cbn [record_result_ok]. split; [discriminate|]. split; assumption.
@@ -618,7 +634,7 @@ Qed.
 
 (* every error of a block is the report of an in-range parser error *)
 Lemma block_errors_in b e : shaped b -> In e (block_errors b) ->
-  exists pe, e = report b pe /\ err_ok (b_lines b) pe.
+  exists pe, e = report b pe /\ err_ok_sig (b_lines b) pe.
 Proof.
   intros (head & sig & tail & Hsh) Hin. destruct (parse_record_ok b head sig tail Hsh) as (r & Hr & Hok).
   unfold block_errors in Hin. rewrite Hr in Hin. destruct r as [r|errs]; [destruct Hin|].
@@ -636,12 +652,23 @@ Proof.
   intros H. apply failed_errors in H. subst es. apply Forall_forall. intros e He.
   apply in_flat_map in He as (b & Hb & He).
   pose proof (blocks_of_lines_shaped (lines_of s)) as Hsh. rewrite Forall_forall in Hsh.
-  apply (block_errors_in b e (Hsh b Hb)) in He as (pe & -> & (l & Hl & Hspan)).
+  apply (block_errors_in b e (Hsh b Hb)) in He as (pe & -> & (l & Hl & _ & Hspan)).
   unfold blocks_of in Hb. destruct (in_split _ _ Hb) as (pre & post & Hsplit).
   pose proof (block_lines_located _ _ _ _ _ _ Hsplit Hl) as Hloc.
   unfold report; cbn [re_line re_pos re_len re_text]. unfold overall_line_index. rewrite Hl.
   split; [apply nth_error_Some; congruence|]. split; [exists l; split; [exact Hloc|reflexivity]|].
   exact Hspan.
+Qed.
+
+(* an error never points at a blank line *)
+Theorem errors_on_significant_lines s es : parse_text s = Ok (Failed es) ->
+  Forall (fun e => is_blank_text (re_text e) = false) es.
+Proof.
+  intros H. apply failed_errors in H. subst es. apply Forall_forall. intros e He.
+  apply in_flat_map in He as (b & Hb & He).
+  pose proof (blocks_of_lines_shaped (lines_of s)) as Hsh. rewrite Forall_forall in Hsh.
+  apply (block_errors_in b e (Hsh b Hb)) in He as (pe & -> & (l & Hl & Hsig & _)).
+  unfold report; cbn [re_text]. rewrite Hl. exact Hsig.
 Qed.
 
 (* ---- ascending order ---- *)
@@ -728,3 +755,41 @@ Qed.
 Definition example_faulty : bytes :=
   ([10] ++ b!"2020-01-01 (8h" ++ [10] ++ b!" x" ++ [10] ++ b!"    8:00-7:00" ++ [10] ++ b!"    1h foo" ++ [10]
    ++ b!"        " ++ [10;10;10] ++ b!"2020-01-02 x" ++ [10] ++ b!"    8:00-? " ++ [10] ++ b!"    9:00 - ??")%N.
+
+(* ================= the result, block by block ================= *)
+
+Lemma no_errors_records_blockwise bs : Forall shaped bs -> flat_map block_errors bs = [] ->
+  Forall2 (fun r b => parse_record b = Ok (inl r)) (flat_map block_records bs) bs.
+Proof.
+  intros H. induction H as [|b bs (head & sig & tail & Hsh) H IH]; cbn [flat_map]; [constructor|].
+  intros He. apply app_eq_nil in He as [He1 He2].
+  destruct (parse_record_ok b head sig tail Hsh) as (r & Hr & Hok).
+  unfold block_records, block_errors in *. rewrite Hr in *. destruct r as [r|errs].
+  - cbn [app]. constructor; [exact Hr|exact (IH He2)].
+  - destruct Hok as [Hne _]. destruct errs; [congruence|discriminate He1].
+Qed.
+
+(* the i-th record is what parse() makes of the i-th block; the errors are those of the blocks, in block order *)
+Theorem parse_text_blockwise s :
+  (forall rs bs, parse_text s = Ok (Parsed rs bs) ->
+     bs = blocks_of s /\ Forall2 (fun r b => parse_record b = Ok (inl r)) rs bs) /\
+  (forall es, parse_text s = Ok (Failed es) ->
+     es = flat_map (fun b => match parse_record b with Ok (inr errs) => map (report b) errs | _ => [] end)
+                   (blocks_of s)).
+Proof.
+  split; [|exact (failed_errors s)].
+  intros rs bs. unfold parse_text, blocks_of.
+  pose proof (blocks_of_lines_shaped (lines_of s)) as Hsh.
+  rewrite (parse_lines_blocks_spec _ Hsh).
+  destruct (flat_map block_errors _) eqn:E; [|discriminate]. intros [= <- <-].
+  split; [reflexivity|]. apply no_errors_records_blockwise; assumption.
+Qed.
+
+(* PeekUntil: what it returns is a prefix of the rest of the line *)
+Lemma peek_until_app p cs pos : exists rest, fst (peek_until p cs pos) ++ rest = skipn pos cs.
+Proof.
+  unfold peek_until. destruct (until p (skipn pos cs)) as [a m] eqn:E. apply until_spec in E as [_ H].
+  cbn [fst]. destruct m.
+  - destruct H as (c & r & -> & _). exists (c :: r). reflexivity.
+  - exists []. rewrite H. apply app_nil_r.
+Qed.
